@@ -65,7 +65,7 @@ class Contracts:
                     raise Undecided("%s:%d: bad section header" % (fname, ln))
                 item, anchor = parts[0], parts[1:]
                 a0 = anchor[0]
-                if a0 in ("ret", "t8", "t8p", "t10", "foriter", "external", "skip_body", "trait", "rename", "strip_mut", "t14", "nocanary"):
+                if a0 in ("ret", "t8", "t8p", "t8o", "t10", "foriter", "external", "skip_body", "trait", "rename", "strip_mut", "t14", "nocanary"):
                     self.flags.setdefault(item, {}).setdefault(a0, []).append(anchor[1:])
                     cur = None
                     continue
@@ -416,7 +416,7 @@ def emit_fn(data, it, ckey, C, tlog, anchors_used, canary=False):
         ed.replace(l["expr"]["start"], l["expr"]["end"], "%s.%s()" % (m.group(2), meth))
         tlog.append({"t": "T8", "item": it["path"], "loop": n, "from": ex, "to": "%s.%s()" % (m.group(2), meth)})
     # T8 (plain form): `for p in E` where E is already a reference to a std collection -> `for p in E.iter()`
-    for t8 in C.flag(ckey, "t8p"):
+    for t8 in C.flag(ckey, "t8p") + [x + ["owned"] for x in C.flag(ckey, "t8o")]:
         n = int(t8[0])
         if n not in loops or loops[n]["kind"] != "for":
             raise Undecided("lost anchor: T8 for-loop %d of %s" % (n, it["path"]))
@@ -426,7 +426,9 @@ def emit_fn(data, it, ckey, C, tlog, anchors_used, canary=False):
             raise Undecided("T8p not applicable to loop %d of %s: `%s`" % (n, it["path"], ex))
         ed.replace(l["expr"]["start"], l["expr"]["end"], "%s.iter()" % ex)
         tlog.append({"t": "T8", "item": it["path"], "loop": n, "from": ex, "to": "%s.iter()" % ex,
-                     "note": "E is a shared reference to a std collection: IntoIterator for &C is C::iter()"})
+                     "note": ("E is an OWNED std collection that is not used after the loop: iterated by reference instead of by value; the body type-checks "
+                              "with `&T` items (auto-ref on method calls), the elements are dropped after the loop instead of one by one")
+                             if "owned" in t8 else "E is a shared reference to a std collection: IntoIterator for &C is C::iter()"})
     for fi in C.flag(ckey, "foriter"):
         n = int(fi[0]); nm = fi[1]
         if n not in loops or loops[n]["kind"] != "for":
